@@ -690,6 +690,16 @@ def _bit_modes(run, world, mod, c):
             run.ob("R-FRAME-LANES", Q + "#bit", ok,
                    "reading bit `key` must test exactly data lane key: %s"
                    % why, where(mod, fn))
+            # ... and the result is a bool: the decoders (C01-C04) test bits
+            # with `is True` / `is False`, which an int 0 / 1 never satisfies
+            nonbool = [unparse(p_.expr) for p_ in done if isinstance(
+                p_.expr, ast.BinOp) or (isinstance(
+                    p_.expr, ast.Constant) and type(p_.expr.value) is int)]
+            run.ob("R-FRAME-LANES", Q + "#bit-is-bool", not nonbool,
+                   "reading a bit returns the integer expression `%s`, not "
+                   "True / False: identity tests of bits (`f[7] is False`) "
+                   "in the command decoders never match" % (
+                       nonbool[0] if nonbool else ""), where(mod, fn))
         else:
             want_set = BV([Seg(Lin.const(0), KEY, "data", Lin.const(0)),
                            Seg(KEY, KEY + 1, "ones"),
